@@ -140,6 +140,8 @@ Definition next_internal (c : config) (auto held : bool) (s : state) : option (s
     end
   end.
 
+Definition is_atomic (a : api) : bool := match a with AAtomic => true | _ => false end.
+
 (* (state, racy, out of fuel) *)
 Fixpoint settle (fuel : nat) (c : config) (auto held : bool) (s : state) (racy : bool)
   : state * bool * bool :=
@@ -216,7 +218,20 @@ Definition model_run (c : case) : mobs :=
         (match result s with Some o => Some (post_result (capi c) o) | None => None end)
         (sort_z (map mitem (maps s))) (sort_z (g_reduced s)) (g_peak s) (clean s) racy bad.
 
-Definition model_obs (c : case) : mobs := model_run c.
+(* AAtomic: what the model loads after each op (for concurrent Sets of one type: every allowed choice) *)
+Fixpoint ae_expected (st : av) (ops : list aop) : list (list goerr) :=
+  match ops with
+  | [] => []
+  | ASet v _ :: tl => let st1 := fst (ae_set guard_today st v) in [st1] :: ae_expected st1 tl
+  | ALoad _ :: tl => [st] :: ae_expected st tl
+  | AConc vs _ o :: tl =>
+    (match non_nil_of vs with [] => [st] | nn => nn end) :: ae_expected o tl
+  end.
+
+(* shown in replay files next to the implementation's observation *)
+Definition model_obs (c : case) : mobs * list (list goerr) :=
+  if is_atomic (capi c) then (mkObs [] (Some OUnit) [] [] 0 true false false, ae_expected None (caops c))
+  else (model_run c, []).
 
 (* ---- equality helpers ---- *)
 Definition pval_eqb (a b : pval) : bool :=
@@ -248,8 +263,6 @@ Definition trivial_case (c : case) : bool :=
 (* the model reproduces what the implementation did (runs in which the
    implementation had a pseudo-random choice between ready select cases / competing
    receivers are only compared on what does not depend on the choice) *)
-Definition is_atomic (a : api) : bool := match a with AAtomic => true | _ => false end.
-
 Definition agrees (c : case) : bool :=
   if is_atomic (capi c) then ae_agrees None (caops c) else
   if trivial_case c then
